@@ -373,7 +373,12 @@ def execute_group(scn, rg, only=None, repeat=1):
         if scn.get("roots"):
             # every top-level entry named on the command line: more roots than threads for the small thread counts
             # (directories only: a file named explicitly is searched whatever -g says, which the per-file references rely on)
-            args = args + ["--"] + sorted({rel.split("/")[0] for rel in files if "/" in rel and not rel.startswith(".")})
+            tops = sorted({rel.split("/")[0] for rel in files if "/" in rel and not rel.startswith(".")})
+            if scn["gid"] % 2 == 0:
+                # a root that does not exist among the others (not the last one): an error for it, everything else as usual
+                tops.insert(1, "no-such-root")
+                scn["gone"] = True
+            args = args + ["--"] + tops
             files = [rel for rel in files if "/" in rel]
         res = {"files": files, "args": args, "blocks": [], "runs": [], "sortrefs": [], "sortruns": []}
         whole = ("intree",) + INTREE[scn["gid"]] if scn.get("delivery") == "intree" else None     # delivery of every whole-tree run
@@ -385,11 +390,11 @@ def execute_group(scn, rg, only=None, repeat=1):
                 res["blocks"].append(rel.encode() + b"\n")   # --files: the block of a file is its path (the -j1 run below must parse as such)
                 continue
             rc, out, err = run_rg(rg, ["-j1", "-g", "/" + rel] + args, root)
-            if rc not in ((0, 1, 2) if scn.get("selfloop") else (0, 1)):
+            if rc not in ((0, 1, 2) if (scn.get("selfloop") or scn.get("gone")) else (0, 1)):
                 raise vlib.ToolError("single-file reference run failed rc=%d: %s" % (rc, err[-300:]))
             res["blocks"].append(out)
         res["ref"] = run_rg(rg, ["-j1"] + args, root, delivery=whole)[:2]
-        if res["ref"][0] not in ((0, 1, 2) if scn.get("selfloop") else (0, 1)):
+        if res["ref"][0] not in ((0, 1, 2) if (scn.get("selfloop") or scn.get("gone")) else (0, 1)):
             raise vlib.ToolError("the -j1 reference run of group %s failed rc=%d" % (scn["gid"], res["ref"][0]))
         for _ in range(repeat):
             for k, (n, cpus) in enumerate(zip(scn["threads"], scn["cpus"])):
